@@ -55,7 +55,7 @@ func devRun(args []string) {
 		}()
 	}
 	t0 := time.Now()
-	cfg := sym.LoadConfig{RepoDir: repoDir + "/" + *pkg, HarnessDir: "/verif/harness/" + *pkg, Tags: []string{"verif"}, InitPkgs: defaultInits(*pkg)}
+	cfg := sym.LoadConfig{RepoDir: repoDir + "/" + *pkg, HarnessDir: "/verif/harness/" + *pkg, Tags: []string{"verif", "math_big_pure_go"}, InitPkgs: defaultInits(*pkg)}
 	if *inits != "" {
 		cfg.InitPkgs = append(cfg.InitPkgs, strings.Split(*inits, ",")...)
 	}
